@@ -1953,6 +1953,27 @@ pub fn f19() -> Vec<Case> {
             out.push(c);
         }
     }
+    // an in-out argument is passed by reference: `x := a[i]` denotes the element selected when the
+    // call is made, also when the callee changes `i` through another in-out (was: the value read from
+    // a[0] written back to a[1]). The reference is the same computation without the call.
+    {
+        let l = |v: i128| lit(int(Ty::DInt, v));
+        let p = prog(
+            vec![Decl { name: "a".into(), ty: TyX::Arr(0, 2, Ty::DInt), init: None }, Decl::new("i", Ty::DInt), Decl::new("r", Ty::DInt)],
+            vec![
+                assign("i", l(0)),
+                S::Assign(LV::Idx("a".into(), vec![l(0)]), bin(Op::Add, E::Idx("a".into(), vec![l(0)]), l(10))),
+                assign("i", bin(Op::Add, var("i"), l(1))),
+                assign("r", E::Idx("a".into(), vec![l(0)])),
+            ],
+        );
+        for (order, call) in [("selector-first", "Bump(sel := i, x := a[i])"), ("element-first", "Bump(x := a[i], sel := i)")] {
+            let text = format!("FUNCTION Bump : DINT\nVAR_IN_OUT sel : DINT; x : DINT; END_VAR\n    x := x + DINT#10;\n    sel := sel + DINT#1;\n    Bump := x;\nEND_FUNCTION\n\nPROGRAM Main\nVAR\n    a : ARRAY[0..2] OF DINT;\n    i : DINT;\n    r : DINT;\nEND_VAR\n    i := DINT#0;\n    r := {call};\nEND_PROGRAM\n");
+            let mut c = case("F19", format!("in-out:indexed-actual:index-changed-by-callee:{order}"), p.clone(), 3, true);
+            c.raw = Some(text);
+            out.push(c);
+        }
+    }
     out.push(raw(
         "F19",
         "en-false:then-call-through-using",
